@@ -5,12 +5,18 @@ EXTENDS AdmissionLoop, TLC, Json, CSV, IOUtils
 Owner4 == <<"P", "Q", "R", "Q">>
 Wire4  == {0, 1, 2, 3, 4, 5, 255, 256, 257, 258, 259, 260}
 
+\* the alphabet of every loop step is written once, when TLC evaluates the assumption
+WriteAlphabet ==
+    \A ls \in LoopSteps : \A m \in Alphabet(ls) :
+        CSVWrite("%1$s", <<ToJson([step |-> ls.id, name |-> m.name, c |-> m.c])>>, "alphabet.ndjson")
+ASSUME WriteAlphabet
+
 \* every delivered prefix is a behaviour: the harness replays it on the real
 \* loop and compares what the loop kept at the end
 EmitSequence ==
     Len(hist) >= 1 =>
         CSVWrite("%1$s", <<ToJson([step |-> lstep.id, kind |-> lstep.kind, excl |-> lstep.excl, leader |-> L,
-                                   msgs |-> hist,
+                                   names |-> [i \in 1..Len(hist) |-> hist[i].name],
                                    expected |-> [stored |-> stored, ready |-> ready, done |-> done,
                                                  faults |-> faults, returned |-> returned]])>>,
                  "sequences.ndjson")
